@@ -558,7 +558,8 @@ def large_nd(ctx):
     scale = 10.0 ** rng.uniform(-9, 3)
     cell = scale * rng.uniform(0.2, 5.0, nd)
     pmin = rng.uniform(-1, 1, nd) * 10.0 ** rng.uniform(-1, 2) * cell * n
-    dims = [gen.pick(rng, SINGLE_CHAR_POOLS)[j] for j in rng.permutation(4)[:nd]]
+    pool = gen.pick(rng, SINGLE_CHAR_POOLS)
+    dims = [pool[j] for j in rng.permutation(4)[:nd]]
     periodic = rng.random() < 0.3
     dname = dims[ax]
     spec = gen.MeshSpec(pmin, cell, n, dims, None, np.zeros(nd, dtype=bool))
